@@ -34,7 +34,7 @@ func TestC16Harvested(t *testing.T) {
 			desc = spec.String()
 		}
 		if err != nil {
-			t.Fatalf("harness: %v", err)
+			t.Fatalf("%s", ev.Tag(fmt.Sprintf("harness: %v", err)))
 		}
 		defer w.Close()
 		ev.Eval(sub)
